@@ -115,9 +115,39 @@ def _atom_ok(types):
     return segs >= 1
 
 
-def syntax_tokens(text):
+def _leaf_value(types, texts):
+    """an operand (rule `value`) as the leaf the visitor builds: bool / number / string text with quotes / path list"""
+    if types == ["TRUE"]:
+        return True
+    if types == ["FALSE"]:
+        return False
+    if types == ["STRING"]:
+        return texts[0]
+    if types[-1] in ("INTEGER", "FLOAT") and len(types) <= 2 and types[0] in ("MINUS", "INTEGER", "FLOAT"):
+        tx = "".join(texts)
+        return float(tx) if types[-1] == "FLOAT" else int(tx)
+    path, i = [], 0
+    while i < len(types):
+        if types[i] == "STARTS_WITH_LOWER_C_STR":
+            path.append(texts[i])
+            i += 1
+        elif types[i] == "DOT":
+            i += 1
+        elif types[i] == "ARRAY_LEFT":
+            j = i
+            while types[j] != "ARRAY_RIGHT":
+                j += 1
+            path.append("".join(texts[i:j + 1]))
+            i = j + 1
+        else:
+            raise ValueError(types)
+    return path
+
+
+def syntax_tokens(text, leaves="index"):
     """(tokens for the model, [texts of the expression operands in order]) or None if a token has no place in the
-    alphabet (only in texts the grammar rejects)"""
+    alphabet (only in texts the grammar rejects); leaves="value": operands as the leaves the visitor builds instead
+    of numbered place holders"""
     from antlr4 import InputStream
     from pfdl_scheduler.parser.PFDLLexer import PFDLLexer as L
 
@@ -129,7 +159,7 @@ def syntax_tokens(text):
     while t.type != -1 and len(raw) < 200000:
         raw.append((names[t.type] if 0 <= t.type < len(names) else str(t.type), t.text, t.line))
         t = lexer.nextToken()
-    out, atoms, atom_types = [], [], []
+    out, atoms, atom_types, atom_texts, atom_toks = [], [], [], [], []
     i, n = 0, len(raw)
     in_expr = None  # None | "while" (ends before INDENT) | "cond" (ends before NL)
     exq = []
@@ -161,10 +191,13 @@ def syntax_tokens(text):
                 if exq and isinstance(exq[-1]["e"], dict) and "atom" in exq[-1]["e"]:
                     atoms[-1] += tx
                     atom_types[-1].append(ty)
+                    atom_texts[-1].append(tx)
                 else:
                     exq.append({"t": "ex", "l": ln, "e": {"atom": ["#%d" % len(atoms)]}})
+                    atom_toks.append(exq[-1])
                     atoms.append(tx)
                     atom_types.append([ty])
+                    atom_texts.append([tx])
             else:
                 return None
             i += 1
@@ -218,6 +251,11 @@ def syntax_tokens(text):
         flush()
     if not all(_atom_ok(a) for a in atom_types):
         return None  # the operand sub-grammar (`value`) is not part of the model
+    if leaves == "value":
+        for tok, tys, txs in zip(atom_toks, atom_types, atom_texts):
+            if any(len(x) > 300 for x in txs):
+                return None
+            tok["e"] = {"atom": _leaf_value(tys, txs)}
     return out, atoms
 
 
